@@ -11,6 +11,8 @@ import (
 	"database/sql"
 	"fmt"
 	"os"
+	"path/filepath"
+	"runtime"
 	"strings"
 	"sync"
 	"testing"
@@ -649,6 +651,118 @@ func drawLateFile(t *rapid.T) *Case {
 	return c
 }
 
+// ---------------------------------------------------------------- thousands of failing uses
+
+// failedUseFlood: a handle on a file that does not exist (and one on a file
+// with an undecodable bitmap, opened with preload) is used thousands of times;
+// every use fails.  Failing must not cost descriptors or goroutines, and
+// afterwards an ordinary handle on an ordinary file works.
+func failedUseFlood(t *testing.T, n int) {
+	dir := fix.CaseDir()
+	defer os.RemoveAll(dir)
+	rows := []model.Row{{"a": "1", "b": "x"}, {"a": "2", "b": "x"}, {"a": "2"}}
+	good, _, err := fix.Build(dir, rows, fix.WMemFile)
+	if err != nil {
+		panic("INFRA: " + err.Error())
+	}
+	bad, err := fix.CopyFile(dir, good)
+	if err != nil {
+		panic("INFRA: " + err.Error())
+	}
+	if db, err := bbolt.Open(bad, 0o644, nil); err == nil {
+		db.Update(func(tx *bbolt.Tx) error {
+			b := tx.Bucket([]byte("data"))
+			k, _ := b.Cursor().Seek([]byte("V"))
+			return b.Put(append([]byte(nil), k...), []byte{0xde, 0xad, 0xbe, 0xef, 9, 9, 9, 9})
+		})
+		db.Close()
+	}
+	c := &Case{}
+	err = guarded("failed-use flood", func() error {
+		missing, _ := sql.Open("updog", "file:"+filepath.Join(dir, "does-not-exist.updog"))
+		broken, _ := sql.Open("updog", "file:"+bad+"?preload=true")
+		defer missing.Close()
+		defer broken.Close()
+		use := func(db *sql.DB, i int) error {
+			return fix.Safe(func() error {
+				var r *sql.Rows
+				var e error
+				if i%2 == 0 {
+					r, e = db.Query(`a = "1"`)
+				} else {
+					r, e = db.Query(`a = $1 ; b`, "2")
+				}
+				if e != nil {
+					return e
+				}
+				defer r.Close()
+				for r.Next() {
+				}
+				return r.Err()
+			})
+		}
+		for i := 0; i < 20; i++ {
+			use(missing, i)
+			use(broken, i)
+		}
+		runtime.GC()
+		fd0, g0 := fix.FDCount(0), runtime.NumGoroutine()
+		failed := 0
+		for i := 0; i < n; i++ {
+			for _, db := range []*sql.DB{missing, broken} {
+				err := use(db, i)
+				if fix.IsPanic(err) {
+					return err
+				}
+				if err == nil {
+					return fmt.Errorf("use %d of a handle whose file is missing or has an undecodable bitmap (preload) returned rows", i)
+				}
+				failed++
+			}
+		}
+		time.Sleep(50 * time.Millisecond)
+		runtime.GC()
+		fd1, g1 := fix.FDCount(0), runtime.NumGoroutine()
+		evid.Case(true, fmt.Sprintf("failed-use flood: %d failing uses; descriptors %d -> %d, goroutines %d -> %d", failed, fd0, fd1, g0, g1), "failed-use-flood")
+		if fd0 >= 0 && fd1 > fd0+8 {
+			return fmt.Errorf("after %d failing uses of handles the process holds %d open descriptors, %d before", failed, fd1, fd0)
+		}
+		if g1 > g0+12 {
+			return fmt.Errorf("after %d failing uses of handles the process has %d goroutines, %d before", failed, g1, g0)
+		}
+		ok, err := sql.Open("updog", "file:"+good)
+		if err != nil {
+			return err
+		}
+		defer ok.Close()
+		var got *fix.SQLRows
+		if err := fix.Safe(func() error {
+			r, e := ok.Query(`a = "2" ; b`)
+			if e != nil {
+				return e
+			}
+			got, e = fix.ScanAll(r)
+			return e
+		}); err != nil {
+			return fmt.Errorf("after %d failing uses an ordinary handle fails: %v", failed, err)
+		}
+		d := model.NewData(rows)
+		return fix.CheckRows(got, []string{"b"}, d.Query(model.Eq("a", "2"), []string{"b"}))
+	})
+	if err != nil {
+		if _, hung := err.(*hangError); hung {
+			evid.WriteCase(prop, "flood", c, "failed-use flood", err)
+			evid.Flush()
+			fmt.Printf("HANG: %v\n", err)
+			os.Exit(3)
+		}
+		fix.Fail(t, prop, "flood", c, "failed-use flood", err)
+	}
+	if err := released(bad); err != nil {
+		fix.Fail(t, prop, "flood", c, "failed-use flood", fmt.Errorf("the file with the undecodable bitmap: %v", err))
+	}
+}
+
 // ---------------------------------------------------------------- a query given up by its caller, then Close
 
 // CancelCase: a query that takes about a second is started with a context
@@ -883,6 +997,9 @@ func drawChurn1(t *rapid.T) *ChurnCase {
 }
 
 func replay(cf *evid.CaseFile) error {
+	if cf.Sub == "flood" {
+		return fmt.Errorf("a failure of the failed-use flood is reproduced by ./check C17 quick")
+	}
 	if cf.Sub == "cancel" {
 		var c CancelCase
 		if err := evid.Decode(cf.Gob, &c); err != nil {
@@ -916,6 +1033,7 @@ func TestQuick(t *testing.T) {
 	fix.Pinned(t, prop, replay)
 	fix.Check(t, "history", 150, func(rt *rapid.T) { run(rt, drawCase(rt, 15)) })
 	runCancel(t, &CancelCase{Opts: "preload=true", TimeoutMS: 20, Rows: 100000})
+	failedUseFlood(t, 1500)
 	fix.Check(t, "late-file", 24, func(rt *rapid.T) { run(rt, drawLateFile(rt)) })
 	fix.Check(t, "reincarnation", 40, func(rt *rapid.T) { run(rt, drawReincarnation(rt)) })
 	fix.Check(t, "churn", 30, func(rt *rapid.T) { runChurn(rt, drawChurn(rt)) })
